@@ -248,7 +248,7 @@ func runC07(c *Ctx) {
 			addBoth([]*scopeT{cloneNumber(t, &next)})
 		}
 	}
-	for i := 0; i < c.Budget(600, 20000); i++ {
+	for i := 0; i < c.Budget(600, 60000); i++ {
 		r := rng.Fork()
 		next := 0
 		var prog []*scopeT
